@@ -154,11 +154,17 @@ theorem rstep_newSpecialSymbol (sh : Shared D L) (sym : Sym) : RStep sh.com (new
   · exact rstep_panic _ _
   · exact rstep_fuel _
 
+theorem rstep_openPhrase (sh : Shared D L) : RStep sh.com (openPhrase env sh) := by
+  intro sh' t h
+  rcases openPhrase_cases env h with ⟨h1, _⟩ | ⟨_, rfl⟩
+  · exact rstep_newPhrase env sh sh' t h1
+  · exact ((Reach.pushCursor _).trans (Reach.clampCursor _)).trans (Reach.popCursor _)
+
 theorem rstep_startSelecting (sh : Shared D L) : RStep sh.com (startSelecting env sh) := by
   unfold startSelecting
   repeat' split
   all_goals first
-    | exact rstep_newPhrase env _
+    | exact rstep_openPhrase env _
     | exact rstep_newSpecialSymbol _ _
     | rstep_leaf (Reach.refl _)
 
@@ -167,7 +173,7 @@ theorem rstep_startSelectingOrInputSpace (sh : Shared D L) :
   unfold startSelectingOrInputSpace
   repeat' split
   all_goals first
-    | exact rstep_newPhrase env _
+    | exact rstep_openPhrase env _
     | exact rstep_newSpecialSymbol _ _
     | rstep_leaf (Reach.refl _)
 
@@ -401,6 +407,13 @@ theorem retarget_com (s : Selecting) (sh : Shared D L) :
   repeat' split
   all_goals first | exact rfl | trivial
 
+theorem rsel_closeIfEmpty (c0 : CompEditor) (r : SelRes D L) (hr : Reach c0 r.shared.com) :
+    RSel c0 (closeIfEmpty env r) := by
+  intro x h
+  rcases closeIfEmpty_cases env h with rfl | rfl
+  · exact hr
+  · exact hr.trans (Reach.popCursor _)
+
 theorem rsel_selMove (s : Selecting) (sh : Shared D L) (isJ : Bool) : RSel sh.com (selMove env s sh isJ) := by
   unfold selMove
   split
@@ -418,12 +431,12 @@ theorem rsel_selMove (s : Selecting) (sh : Shared D L) (isJ : Bool) : RSel sh.co
     split
     · rename_i sh' s' hq
       have := (retarget_com env s _).elim hq
-      intro x h; injection h with h; subst h
+      refine rsel_closeIfEmpty env _ _ ?_
       show Reach sh.com sh'.com
       rw [this]; exact hr
     · rename_i sh' t _ hq
       have := (retarget_com env s _).elim hq
-      intro x h; injection h with h; subst h
+      refine rsel_closeIfEmpty env _ _ ?_
       show Reach sh.com sh'.com
       rw [this]; exact hr
     · exact rsel_panic _ _
